@@ -268,7 +268,7 @@ let agent_suite () =
       let n = String.length line in
       if n > 2 && line.[0] = 'H' then begin
         match split_sp line with
-        | [_; rel; rto; rm; rc; gran; limit; mech; fp] ->
+        | _ :: rel :: rto :: rm :: rc :: gran :: limit :: mech :: fp :: ([] | ["d"]) ->
           let cf = { reliable = rel = "1"; cf_rm = nn rm; cf_rc = nn rc; limit = nn limit; use_fp = fp = "1" } in
           let m = match mech with
             | "0" -> MNone | "1" -> MST None | "2" -> MST (Some IMI) | "3" -> MST (Some ISHA)
@@ -541,6 +541,7 @@ let md5_of_bytes (l : n list) : string =
   Digest.to_hex (Digest.bytes b)
 let encbuf_suite () =
   let idx = ref 0 in
+  let unmodelled = ref false in
   let last_obs = ref None in
   let pending = ref None in
   (try
@@ -549,6 +550,20 @@ let encbuf_suite () =
       let n = String.length line in
       if n > 2 && line.[0] = 'C' then begin
         match split_sp line with
+        | _ :: "T" :: m :: c :: txid :: buflen :: fill :: specs ->
+          (* typed attribute values: the value bytes come from the typed encoders of the model (ample room), then the
+             message encoder with the caller's buffer *)
+          let attrs = List.map (fun sp ->
+              let r = String.sub sp 1 (String.length sp - 1) in
+              match String.index_opt r ':' with
+              | Some i -> TVal (nn (String.sub r 0 i), parse_aval (String.sub r (i+1) (String.length r - i - 1)))
+              | None -> failwith "typed spec") specs in
+          let tm = { t_method = nn m; t_class = nn c; t_txid = bytes_of_hex txid; t_attrs = attrs } in
+          let bl = int_of_string buflen in
+          let buf = List.init bl (fun i -> match fill with "0" -> small_n.(0) | "255" -> small_n.(255) | _ -> small_n.((i * 131 + 7) mod 256)) in
+          (match enc_values (t_hdr tm) attrs with
+           | VOk l -> pending := Some (buf, t_typ tm, tm.t_txid, l, n_of_int bl)
+           | _ -> pending := None; unmodelled := true)
         | [_; m; c; txid; buflen; fill; attrs] ->
           let l = if attrs = "-" then [] else List.map (fun t ->
               let r = String.sub t 1 (String.length t - 1) in
@@ -577,11 +592,17 @@ let encbuf_suite () =
           emit (Printf.sprintf "S %d %d C14 -" i (if monitor_C14 bl l obs then 1 else 0));
           last_obs := Some (i, obs);
           pending := None
-        | None -> failwith "I without C"
-      end else if n >= 6 && String.sub line 0 7 = "J tail=" then begin
+        | None ->
+          if !unmodelled then begin let i = !idx in incr idx; emit (Printf.sprintf "M %d UNMODELLED" i); unmodelled := false; last_obs := None end
+          else failwith "I without C"
+      end else if n >= 2 && line.[0] = 'J' then begin
         match !last_obs with
         | Some (i, obs) ->
-          emit (Printf.sprintf "S %d %d C14 tail-modified" i (if monitor_C14_tail obs (line.[7] = '1') then 1 else 0));
+          let facts = split_sp (if n > 2 then String.sub line 2 (n - 2) else "") in
+          List.iter (fun t -> match String.split_on_char '=' t with
+              | ["tail"; v] -> emit (Printf.sprintf "S %d %d C14 tail-modified" i (if monitor_C14_tail obs (v = "1") then 1 else 0))
+              | ["indep"; v] -> emit (Printf.sprintf "S %d %d C14 depends-on-previous-contents" i (if monitor_C14_indep (v = "1") then 1 else 0))
+              | _ -> ()) facts;
           last_obs := None
         | None -> ()
       end
